@@ -516,6 +516,7 @@ def run_c07(ctx, chk):
     for (f, c), a in sorted(rem.items()):
         chk.instance('R-ABSENT', f, c, a['ok'], detail=a['why'] or '%d visits' % a['n'], span=a['span'],
                      what='erase drops cells from the grid, which then read as the default blank instead of the cursor rendition: ' + a['why'])
+    must_footprint(ctx, chk, funcs)
     # unsupported selectors are ignored: no grid operation on those paths
     for m, first_bad in (('erase_in_line', 3), ('erase_in_display', 4)):
         f = ep(m)
@@ -536,6 +537,138 @@ def run_c07(ctx, chk):
                      span=prog.bodies[f].span, what='%s with an unsupported selector: %s' % (m, '; '.join(bad[:2])))
     from .rules_c01 import panic_obligations
     panic_obligations(chk, 'C07', eng, only_funcs=funcs)
+
+
+def must_footprint(ctx, chk, scope):
+    """every documented cell IS erased: on each exit path the method ran a loop (in its own code or a
+    private helper) that stores a cell in every iteration, cannot be left early, and iterates a range
+    containing the documented columns (for ED: rows, with an inner loop over all columns)"""
+    sr = ctx.screen_run()
+    eng = sr['engine']
+    prog = ctx.prog
+    loops = g.cell_store_loops(ctx, sr)
+
+    def sel(st):
+        a0 = st.vn.get(('entry-arg', 0))
+        if isinstance(a0, EnumV) and a0.tags == {0}:
+            return 0
+        how = opt_payload(a0)
+        if isinstance(how, NumV):
+            lo, hi = eng.bounds(st, how)
+            return lo if lo == hi else None
+        return None
+
+    def path_loops(evs, want_row):
+        out = []
+        for ev in evs:
+            if ev[0] == 'loop-head' and ev[1] in scope and len(ev) > 4 and ev[4] is not None:
+                rows = loops.get((ev[1], ev[2]))
+                if rows and (want_row is None or want_row in rows):
+                    out.append(ev)
+        return out
+
+    def line_range(meth, hv, st):
+        x0, cols = st.vn[('entry', 'x')], st.vn[('entry', 'columns')]
+        zero = NumV(None, 0, 'u32')
+        if meth == 'erase_characters':
+            n = norm_count(eng, st, st.vn.get(('entry-arg', 0)))
+            if n is None:
+                return None
+            return (x0, lambda s: eng.num_min(s, eng.num_add(s, x0, n, 'u32'), cols, 'u32'))
+        if hv == 0:
+            return (x0, cols)
+        if hv == 1:
+            return (zero, lambda s: NumV(*_plus1(eng.num_min(s, x0, NumV(cols.sym, cols.k - 1, 'u32'), 'u32'))))
+        if hv == 2:
+            return (zero, cols)
+        return None
+    for meth in ('erase_in_line', 'erase_characters'):
+        f = ep(meth)
+        bad = []
+        cnt = 0
+        for r, st, ret in each_final(sr, f):
+            hv = sel(st) if meth == 'erase_in_line' else 0
+            rng = line_range(meth, hv, st)
+            if rng is None:
+                continue
+            cnt += 1
+            cands = path_loops(st.event_list(), 'cursor-row')
+            ok = False
+            why = 'no loop that stores a cell of the cursor row in every iteration is run'
+            for ev in cands:
+                okc, w = g.range_covers(eng, st, ev[4], rng[0], rng[1])
+                if okc:
+                    ok = True
+                    break
+                why = 'the loop over %s..%s%s does not cover the documented columns (%s)' % (
+                    g.term(eng, st, ev[4][1]), '=' if ev[4][3] else '', g.term(eng, st, ev[4][2]), w)
+            if not ok:
+                bad.append('[%s] %s' % (r.label, why))
+        chk.instance('R-MUSTFOOT', short(f), 'every documented cell of the cursor row is erased', cnt > 0 and not bad,
+                     detail='; '.join(bad[:2]) or '%d exit paths with a supported selector / count' % cnt, span=prog.bodies[f].span,
+                     what='%s leaves documented cells unerased: %s' % (meth, '; '.join(bad[:2])))
+    # ED: whole rows below / above / everywhere, then the cursor row through EL for selectors 0 and 1
+    f = ep('erase_in_display')
+    bad = []
+    cnt = 0
+    for r, st, ret in each_final(sr, f):
+        hv = sel(st)
+        if hv not in (0, 1, 2, 3):
+            continue
+        cnt += 1
+        y0, lines, cols = st.vn[('entry', 'y')], st.vn[('entry', 'lines')], st.vn[('entry', 'columns')]
+        zero = NumV(None, 0, 'u32')
+        rows = {0: (NumV(y0.sym, y0.k + 1, 'u32'), lines), 1: (zero, y0), 2: (zero, lines), 3: (zero, lines)}[hv]
+        evs = st.event_list()
+        ok = False
+        why = 'no loop over the rows is run'
+        whys = []
+        for ev in evs:
+            if ev[0] != 'loop-head' or ev[1] not in scope or len(ev) < 5 or ev[4] is None:
+                continue
+            if why not in whys:
+                whys.append(why)
+            okr, w = g.range_covers(eng, st, ev[4], rows[0], rows[1])
+            if not okr:
+                why = 'the row loop %s..%s does not cover the documented rows (%s)' % (g.term(eng, st, ev[4][1]), g.term(eng, st, ev[4][2]), w)
+                continue
+            body = prog.bodies.get(ev[1])
+            if isinstance(ev[2], int) and not g.loop_exits_only_at_head(body, ev[2]):
+                why = 'the row loop can be left early'
+                continue
+            # every iteration of this row loop blanks the whole row
+            segs = [sg for sg in sr['segments'] if sg['func'] == ev[1] and sg['head'] == ev[2] and sg['ep'] == f]
+            okall = bool(segs)
+            for sg in segs:
+                pre, lev = g.seg_events(dict(sg, kind='backedge'))
+                d_outer = g.loop_desc_in(sg['st'].event_list(), ev[1], ev[2])
+                want_row = ('elem', d_outer[1].key(), d_outer[2].key(), bool(d_outer[3])) if d_outer and isinstance(d_outer[1], NumV) and isinstance(d_outer[2], NumV) else None
+                inner_ok = False
+                for e2 in lev:
+                    if e2[0] == 'loop-head' and e2[1] in scope and len(e2) > 4 and e2[4] is not None and want_row in loops.get((e2[1], e2[2]), ()):
+                        c2 = sg['st'].vn.get(('entry', 'columns'))
+                        okc, w2 = g.range_covers(eng, sg['st'], e2[4], NumV(None, 0, 'u32'), c2)
+                        if okc:
+                            inner_ok = True
+                if not inner_ok:
+                    okall = False
+                    why = 'an iteration of the row loop does not blank all columns of its row'
+            if okall:
+                ok = True
+                break
+        if ok and hv in (0, 1):
+            if not any(e2[0] == 'call' and e2[1] == ep('erase_in_line') and len(e2[2]) >= 1 and e2[2][0] == ('Some', hv) for e2 in evs):
+                ok = False
+                why = 'the cursor row is not erased with the same selector (no erase_in_line(%d))' % hv
+        if not ok:
+            bad.append('[%s] %s' % (r.label, ' / '.join(whys[1:] + [why])))
+    chk.instance('R-MUSTFOOT', short(f), 'every documented row is blanked completely (and the cursor row through EL)', cnt > 0 and not bad,
+                 detail='; '.join(bad[:2]) or '%d exit paths with a supported selector' % cnt, span=prog.bodies[f].span,
+                 what='erase_in_display leaves documented cells unerased: %s' % '; '.join(bad[:2]))
+
+
+def _plus1(v):
+    return (v.sym, v.k + 1, v.ty)
 
 
 def erase_region_ok(eng, st, meth, hv, row, col, x0, y0, cols, a0):
